@@ -1463,11 +1463,31 @@ func checkRecoveredPath(c *Ctx, rule string) {
 			c.Bad(rule, "packet handed to writeRTP in "+fs.Name, fs.Pos(), "no rtp.Packet is parsed in "+fs.Name)
 			continue
 		}
+		// the packet and the locals it is copied to (p, err = p1, nil after inlining)
+		pkts := map[types.Object]bool{pkt: true}
+		for changed := true; changed; {
+			changed = false
+			ast.Inspect(fs.Body(), func(m ast.Node) bool {
+				as, ok := m.(*ast.AssignStmt)
+				if !ok || len(as.Lhs) != len(as.Rhs) {
+					return true
+				}
+				for i, l := range as.Lhs {
+					lid, okL := l.(*ast.Ident)
+					rid, okR := unparen(as.Rhs[i]).(*ast.Ident)
+					if okL && okR && pkts[info.ObjectOf(rid)] && !pkts[info.ObjectOf(lid)] {
+						pkts[info.ObjectOf(lid)] = true
+						changed = true
+					}
+				}
+				return true
+			})
+		}
 		isWrite := func(n ast.Node) bool {
 			hit := false
 			ast.Inspect(n, func(m ast.Node) bool {
 				if call, ok := m.(*ast.CallExpr); ok && len(call.Args) == 1 && fnIs(calleeOf(&CallSite{Call: call, In: fs}), "diskwriter", "diskTrack", "writeRTP") {
-					if id, ok := unparen(call.Args[0]).(*ast.Ident); ok && info.ObjectOf(id) == pkt {
+					if id, ok := unparen(call.Args[0]).(*ast.Ident); ok && pkts[info.ObjectOf(id)] {
 						hit = true
 					}
 				}
